@@ -10,6 +10,7 @@ The base64 codec is the specification-level model `StarModel.Base64` of the thir
 round trip `decodeChars (encodeChars bs) = some bs` is the theorem `hb64` below (proved in Lemmas/Codec.lean)
 (proved separately as `C15_base64_roundtrip`).
 -/
+import StarModel.Lemmas.Skeleton
 import StarModel.Lemmas.Agg
 import StarModel.Lemmas.Codec
 import StarModel.Props.C02
